@@ -57,7 +57,7 @@ func genPreds() []logql.LabelPredicate {
 	b := &logql.NumberFilter{Label: "n", Op: logql.OpGt, Value: 5}
 	c := lp("c", logql.OpNotRe, "y.+")
 	out := []logql.LabelPredicate{
-		a, lp("a", logql.OpNotEq, `q"r`), lp("a", logql.OpRe, "x|y"), c,
+		a, lp("a", logql.OpNotEq, `q"r`), lp("a", logql.OpRe, "x|y"), c, lp("a", logql.OpRe, "^x|y$"), lp("c", logql.OpNotRe, `^z\$`),
 		b, &logql.NumberFilter{Label: "n", Op: logql.OpEq, Value: 1.5}, &logql.NumberFilter{Label: "n", Op: logql.OpLte, Value: 1000}, &logql.NumberFilter{Label: "n", Op: logql.OpNotEq, Value: 0},
 		&logql.NumberFilter{Label: "n", Op: logql.OpGte, Value: 7}, &logql.NumberFilter{Label: "n", Op: logql.OpLt, Value: 7},
 		&logql.DurationFilter{Label: "d", Op: logql.OpGt, Value: 5 * time.Minute}, &logql.DurationFilter{Label: "d", Op: logql.OpLte, Value: 90 * time.Minute},
@@ -732,6 +732,13 @@ func c05Run(r *vkit.Run) {
 			})
 		}
 	}
+	// dotted names: between two stretches of the corpus and at its end (the parser has then seen calls of both kinds)
+	for n := range c05Dotted {
+		idx++
+		if r.Mine(idx) && !r.Stop() {
+			c05CheckDots(r, n)
+		}
+	}
 	if r.Shard == 0 {
 		for n, q := range c05Static {
 			c05CheckNegative(r, c05Input{Negative: fmt.Sprintf("static:%d", n), Tier: tier}, q, true)
@@ -743,6 +750,54 @@ func c05Run(r *vkit.Run) {
 	r.Note("bounds", fmt.Sprintf("%d generated ASTs (all stage kinds with 2-5 argument variants, pipelines of <=%d stages, 18 range-function variants x unwrap forms x groupings x offsets x [range] positions, vector aggregations incl. nested, binary operators x modifiers, label_replace, literals) x up to 14 textual renderings (8 layouts, redundant parentheses, range position, grouping position, and/,/juxtaposition, 4 spellings of number literals, 3 of durations); %d static-rule violations; every single-token corruption (delete, duplicate, swap, stray bracket, split operator, quoted label name) of %s corpus queries", len(cp), map[bool]int{false: 2, true: 3}[thorough], len(c05Static), map[bool]string{false: "a fifth of the", true: "all"}[thorough]))
 }
 
+// c05Dotted: queries whose label names contain dots. With ParseOptions.AllowDots they are names like any other
+// (the dump shows them unchanged); without it they violate the grammar. The option belongs to one call: what an
+// earlier call was given does not matter.
+var c05Dotted = []struct{ text, name string }{
+	{`{service.name="api"}`, "service.name"},
+	{`{a="b"} | k8s.pod="x"`, "k8s.pod"},
+	{`sum by (k8s.pod) (rate({a="b"}[1m]))`, "k8s.pod"},
+	{`{a="b", k8s.pod.name=~"x.*"} |= "err"`, "k8s.pod.name"},
+	{`count_over_time({a="b"} | json | http.status >= 500 [5m])`, "http.status"},
+}
+
+func c05CheckDots(r *vkit.Run, n int) {
+	in := c05Input{Negative: fmt.Sprintf("dots:%d", n), Text: c05Dotted[n].text}
+	r.Begin("C05/dots", in)
+	parse := func(dots bool) (string, error) {
+		var e logql.Expr
+		var err error
+		func() {
+			defer func() {
+				if p := recover(); p != nil {
+					err = fmt.Errorf("panic: %v", p)
+				}
+			}()
+			e, err = logql.Parse(in.Text, logql.ParseOptions{AllowDots: dots})
+		}()
+		if err != nil {
+			return "", err
+		}
+		return dumpExpr(e), nil
+	}
+	// with, without, with, without: the second and fourth call follow one that allowed dots
+	for k, dots := range []bool{true, false, true, false, false} {
+		d, err := parse(dots)
+		r.Eval()
+		switch {
+		case dots && err != nil:
+			r.Fail("C05/dots", in, nil, "error: "+err.Error(), "accepted", fmt.Sprintf("call %d: with AllowDots, %s is rejected: %v", k+1, in.Text, err), "")
+			return
+		case dots && !strings.Contains(d, c05Dotted[n].name):
+			r.Fail("C05/dots", in, nil, d, c05Dotted[n].name, fmt.Sprintf("call %d: with AllowDots, the name %s is not in the parsed structure of %s", k+1, c05Dotted[n].name, in.Text), "")
+			return
+		case !dots && err == nil:
+			r.Fail("C05/dots", in, nil, d, "rejected", fmt.Sprintf("call %d: without AllowDots, %s is accepted (the call before it %s dots)", k+1, in.Text, map[bool]string{true: "allowed", false: "did not allow"}[k > 0 && k != 4]), "")
+			return
+		}
+	}
+}
+
 func c05Replay(r *vkit.Run, v vkit.Violation) *vkit.Violation {
 	var in c05Input
 	if err := vkit.DecodeInput(v, &in); err != nil {
@@ -751,6 +806,12 @@ func c05Replay(r *vkit.Run, v vkit.Violation) *vkit.Violation {
 	return vkit.ReplayOne(r, func() {
 		if in.Negative == "" {
 			c05CheckPositive(r, in)
+			return
+		}
+		if strings.HasPrefix(in.Negative, "dots:") {
+			var n int
+			fmt.Sscanf(in.Negative, "dots:%d", &n)
+			c05CheckDots(r, n)
 			return
 		}
 		must := strings.HasPrefix(in.Negative, "static:")
